@@ -19,7 +19,7 @@ EXTENDS Integers, Sequences, FiniteSets
 \*   mode  \in {"Cmd","RdMulti","WrSingle","WrMulti"}
 \*   ident \in {"none","c0","c8","rdy","done"}   progress of the identification sequence
 InitCard(a41) == [pw |-> FALSE, idle |-> FALSE, ready |-> FALSE, v2ok |-> FALSE, crcon |-> FALSE, app |-> FALSE,
-                  mode |-> "Cmd", a41 |-> a41, a41need |-> a41, cur |-> 0, ident |-> "none", last |-> -1]
+                  mode |-> "Cmd", a41 |-> a41, a41need |-> a41, cur |-> 0, ident |-> "none", last |-> -1, pre |-> 0]
 
 IdleBit(c) == IF c.idle THEN 1 ELSE 0
 
@@ -69,6 +69,7 @@ CardNext(c, kind, nblocks, e, r1) ==
             [] ~e.acmd /\ e.idx = 17 /\ c.ready -> [base EXCEPT !.cur = b]
             [] ~e.acmd /\ e.idx = 24 /\ c.ready -> [base EXCEPT !.mode = "WrSingle", !.cur = b]
             [] ~e.acmd /\ e.idx = 25 /\ c.ready -> [base EXCEPT !.mode = "WrMulti", !.cur = b]
+            [] e.acmd /\ e.idx = 23 /\ c.ready -> [base EXCEPT !.pre = (e.ah % 128) * 65536 + e.al]     \* SET_WR_BLK_ERASE_COUNT (23 bits)
             [] OTHER -> base
 \* a failed (illegal / crc) ACMD41 still counts down in the simulator only when idle; keep the spec simple:
 \* the count-down happens exactly when the reply is 1 to a well-formed ACMD41.
@@ -114,6 +115,10 @@ IdentNext(c, kind, e, r1) ==
 
 \* capacity in 512-byte blocks encoded by a CSD register, by its own structure version
 \* version 1.0: (C_SIZE+1) * 2^(C_SIZE_MULT+2) * 2^READ_BL_LEN bytes; version 2.0: (C_SIZE+1) * 512 KiB
+\* blocks a multi-block write command erases before the first data block arrives: the count announced by a directly
+\* preceding ACMD23 (the simulated card erases at most 64, which is more than any transfer of the scenarios)
+PreErased(c, e, r1) == IF ~e.acmd /\ e.idx = 25 /\ r1 = 0 /\ c.last = 123 THEN (IF c.pre < 64 THEN c.pre ELSE 64) ELSE 0
+
 CsdBlocks(csd) == IF csd.ver = 0 THEN (csd.c_size + 1) * (2 ^ (csd.mult + csd.bl - 7))
                   ELSE (csd.c_size + 1) * 1024
 =============================================================================
